@@ -116,10 +116,11 @@ type c15Case struct {
 	Status2  int  // second, superfluous WriteHeader
 	Trailer  bool // the origin announces and sends a trailer
 	Empty    bool // zero-length first write
+	Late     bool // header map changed after WriteHeader
 }
 
 func (c c15Case) String() string {
-	return fmt.Sprintf("pos=%s level=%d min=%d AE=%q type=%q size=%d payload=%s status=%d declare=%v %s writes=%d flushmid=%v interim=%d abort=%v flushone=%v status2=%d trailer=%v emptywrite=%v", c.Pos, c.Level, c.Min, c.AE, c.CType, c.Size, c.Payload, c.Status, c.Declare, c.Method, c.Writes, c.FlushMid, c.Interim, c.Abort, c.FlushOne, c.Status2, c.Trailer, c.Empty)
+	return fmt.Sprintf("pos=%s level=%d min=%d AE=%q type=%q size=%d payload=%s status=%d declare=%v %s writes=%d flushmid=%v interim=%d abort=%v flushone=%v status2=%d trailer=%v emptywrite=%v late-header=%v", c.Pos, c.Level, c.Min, c.AE, c.CType, c.Size, c.Payload, c.Status, c.Declare, c.Method, c.Writes, c.FlushMid, c.Interim, c.Abort, c.FlushOne, c.Status2, c.Trailer, c.Empty, c.Late)
 }
 
 // origin returns the handler program and the entity the origin serves (body as the origin
@@ -164,7 +165,7 @@ func (c c15Case) origin() (*hprog, []byte, bool) {
 		p.FlushAfter = 1
 	}
 	p.Status2 = c.Status2
-	p.Trailer, p.EmptyWrite = c.Trailer, c.Empty
+	p.Trailer, p.EmptyWrite, p.LateHeader = c.Trailer, c.Empty, c.Late
 	return p, plain, pre
 }
 
@@ -430,6 +431,14 @@ func c15Cases(th bool) []c15Case {
 			}
 			for _, ae := range []string{"gzip", "-"} {
 				out = append(out, c15Case{Pos: "gzip", Level: 5, Min: 64, AE: ae, CType: "text/html", Size: sz, Payload: "text", Status: st[0], Status2: st[1], Method: "GET", Writes: 1})
+			}
+		}
+	}
+	// header map changed after WriteHeader: not part of the response
+	for _, sz := range []int{0, 10, 70, 5000} {
+		for _, st := range []int{200, 404} {
+			for _, ae := range []string{"gzip", "-"} {
+				out = append(out, c15Case{Pos: "gzip", Level: 5, Min: 64, AE: ae, CType: "text/html", Size: sz, Payload: "text", Status: st, Method: "GET", Writes: 1, Late: true})
 			}
 		}
 	}
